@@ -110,6 +110,7 @@ class PythonRegex(regex.Regex):
         self._preprocess_brackets()
         self._preprocess_positive_closure()
         self._preprocess_optional()
+        self._preprocess_empty_alternatives()
         self._separate()
         self._python_regex = self._python_regex.lstrip('\b')
         super().__init__(self._python_regex)
@@ -404,6 +405,22 @@ class PythonRegex(regex.Regex):
                     regex_temp[-1] += symbol
                 else:
                     regex_temp.append(symbol)
+        self._python_regex = "".join(regex_temp)
+
+    def _preprocess_empty_alternatives(self):
+        """ An empty alternative or group, as in (a|), (|a) or (), matches the
+        empty word """
+        regex_temp = []
+        for symbol in self._python_regex:
+            if self._should_escape_next_symbol(regex_temp):
+                regex_temp[-1] += symbol
+                continue
+            if (symbol == "|" and not regex_temp) or \
+                    (symbol in "|)" and regex_temp and regex_temp[-1] in "(|"):
+                regex_temp.append("$")
+            regex_temp.append(symbol)
+        if regex_temp and regex_temp[-1] == "|":
+            regex_temp.append("$")
         self._python_regex = "".join(regex_temp)
 
     @staticmethod
